@@ -256,10 +256,85 @@ def check_key(ci, d, deep=True, k3=None):
     return bad
 
 
+def special_points(ci, rng):
+    """valid public points nobody knows a private scalar for: x = 0 (where b is a square: NIST192p/256p/384p/521p, SECP128r1,
+    SECP160r1 ...), the smallest liftable x, x = p - 1 .. and a point with a leading zero byte - both roots each.  Cofactor-1
+    curves only (every curve point is a subgroup point there)."""
+    if ci.h != 1:
+        return []
+    out = []
+    xs = [0, ci.p - 1]
+    xs += [x for x in range(1, 40) if K.lift_x(ci, x)][:2]
+    for x in xs:
+        P = K.lift_x(ci, x)
+        if P:
+            out += [("x=%s" % ("0" if x == 0 else "p-1" if x == ci.p - 1 else "small"), P), ("same x, other root", (P[0], ci.p - P[1]))]
+    lz = K.leading_zero_point(ci, rng, tries=400)
+    if lz:
+        out.append(("leading zero byte", lz))
+    return out
+
+
+def check_pub(ci, x, y):
+    """the verifying-key half of the property at a public POINT (no private scalar needed): every encoding loads to the same
+    key denoting (x, y), every export is the SEC 1 / SubjectPublicKeyInfo encoding of an independent encoder, DER and PEM round
+    trips.  Round-8 seed C09-mut49-1 rejected every key with x = 0."""
+    from ecdsa import VerifyingKey
+    bad = []
+    cv = ci.cv
+    first = None
+    for enc in K.ENCS:
+        pt = K.enc_point(ci, x, y, enc)
+        try:
+            vk = VerifyingKey.from_string(pt, cv, hashlib.sha256)
+        except Exception as e:  # noqa
+            bad.append("from_string(%s) of a valid subgroup point raises %s" % (enc, common.errname(e)))
+            continue
+        if K.vk_xy(vk) != (x, y):
+            bad.append("from_string(%s) denotes another point" % enc)
+            continue
+        first = first or vk
+        if not (vk == first):
+            bad.append("the same point loaded from %s compares unequal" % enc)
+        for enc2 in K.ENCS:
+            if vk.to_string(enc2) != K.enc_point(ci, x, y, enc2):
+                bad.append("to_string(%s) differs from the SEC 1 encoding" % enc2)
+        if enc == "raw":
+            continue
+        ref = K.spki(ci.oid, pt)
+        if vk.to_der(enc) != ref:
+            bad.append("to_der(%s) is not the canonical SubjectPublicKeyInfo" % enc)
+        if vk.to_pem(enc) != K.pem(ref, "PUBLIC KEY"):
+            bad.append("to_pem(%s) is not the RFC 7468 armour of the DER" % enc)
+        for what, th in (("from_der(independent SPKI %s)" % enc, lambda: VerifyingKey.from_der(ref, hashlib.sha256)),
+                         ("from_pem(%s)" % enc, lambda: VerifyingKey.from_pem(K.pem(ref, "PUBLIC KEY"), hashlib.sha256))):
+            try:
+                k2 = th()
+                if not (k2 == vk) or k2.curve is not cv or K.vk_xy(k2) != (x, y):
+                    bad.append(what + ": reloaded verifying key differs")
+            except Exception as e:  # noqa
+                bad.append(what + " raises %s" % common.errname(e))
+    return bad
+
+
 def search(ctx):
     from ecdsa import curves as C
     n_eval = 0
     k3 = []
+    for cv in C.curves:
+        ci = K.CurveInfo(cv)
+        for tag, (x, y) in special_points(ci, ctx.rng):
+            n_eval += 1
+            ctx.hist("search.class", "public point: " + tag)
+            try:
+                bad = check_pub(ci, x, y)
+            except Exception as e:  # noqa
+                bad = ["exception %s" % common.errname(e)]
+            if bad:
+                ctx.violation({"input": {"curve": cv.name, "public_point": [x, y], "class": tag}, "observed": bad[:6],
+                               "expected": "every encoding of the valid point loads to the same key; exports are the independent SEC 1 / SPKI encodings"})
+                if len(ctx.violations) >= 5:
+                    return
     for cv in C.curves:
         ci = K.CurveInfo(cv)
         ds = scalars(ctx, ci)
@@ -276,6 +351,24 @@ def search(ctx):
                                "expected": "canonical DER of SPKI / ECPrivateKey / OneAsymmetricKey, exact round trips"})
                 if len(ctx.violations) >= 5:
                     return
+    # a curve registered by the user AFTER keys have been loaded (the loop above): `curves.curves` is the table `find_curve`
+    # searches, appending to it is how a user-defined curve gets DER / PEM support.  Same parameters as a named curve under a
+    # private OID and name, so every reference encoder applies.  Round-8 seed C09-mut49-2 memoised the table on first lookup.
+    for base_name in ("NIST256p", "SECP160r1"):
+        base = next(c for c in C.curves if c.name == base_name)
+        mine = C.Curve("user-" + base_name, base.curve, base.generator, (1, 3, 6, 1, 4, 1, 99999, 7, len(base_name)), "user" + base_name)
+        C.curves.append(mine)
+        try:
+            ci = K.CurveInfo(mine)
+            for d in (1, ctx.rng.randrange(2, mine.order)):
+                n_eval += 1
+                ctx.hist("search.class", "user-registered curve")
+                bad = run_check_key(ci, d, True, [])
+                if bad:
+                    ctx.violation({"input": {"curve": base_name, "d": d, "registered_as": list(mine.oid)}, "observed": bad[:6],
+                                   "expected": "a curve appended to ecdsa.curves.curves after earlier loads round-trips like a named one"})
+        finally:
+            C.curves.remove(mine)
     # PEM armour sweep (independent reference: base64 in 64-character lines between the two marker lines).  The body of a PEM
     # file is base64 TEXT, so it can spell any word over [A-Za-z0-9+/] - "END", "BEGIN", "KEY", "EC" ... - by chance about once
     # in 1500 keys; a reader that recognises its marker lines by anything weaker than the "-----" prefix truncates exactly
@@ -352,12 +445,29 @@ def replay(rec):
     i = rec["input"]
     if isinstance(i, dict) and "pem_blob" in i:
         return bool(check_armour(bytes.fromhex(i["pem_blob"]), i.get("name", "PUBLIC KEY")))
+    if isinstance(i, dict) and "public_point" in i:
+        cv = next((c for c in C.curves if c.name == i.get("curve")), None)
+        if cv is None:
+            K.cannot_replay("unknown curve %r" % (i.get("curve"),))
+        try:
+            return bool(check_pub(K.CurveInfo(cv), int(i["public_point"][0]), int(i["public_point"][1])))
+        except Exception:  # noqa
+            return True
     if not isinstance(i, dict) or "curve" not in i or "d" not in i:
         K.cannot_replay("C09 records are {curve, d[, k3]}; got %r" % (i,))
     cv = next((c for c in C.curves if c.name == i["curve"]), None)
     if cv is None:
         K.cannot_replay("unknown curve %r" % (i["curve"],))
     d = int(i["d"])
+    if i.get("registered_as"):
+        from ecdsa import SigningKey
+        SigningKey.from_der(SigningKey.from_secret_exponent(1, cv).to_der())     # an earlier load, as in the search
+        mine = C.Curve("user-" + cv.name, cv.curve, cv.generator, tuple(i["registered_as"]), "user" + cv.name)
+        C.curves.append(mine)
+        try:
+            return bool(run_check_key(K.CurveInfo(mine), d, True, []))
+        finally:
+            C.curves.remove(mine)
     if i.get("k3"):
         k3 = []
         bad = run_check_key(K.CurveInfo(cv), d, False, k3)
